@@ -32,8 +32,8 @@ struct W {
     after: Option<u64>,
     /// transfer start time, us after the start of the run
     start_us: Option<u64>,
-    /// carousel (delay ms) and the packet index after which the object is removed
-    carousel: Option<(u64, u64)>,
+    /// carousel (delay / interval ms), the packet index after which the object is removed, interval mode
+    carousel: Option<(u64, u64, bool)>,
     /// paced transfer: target acquisition duration (ms)
     target_ms: Option<u64>,
 }
@@ -62,8 +62,8 @@ fn workload(queues: Vec<(u32, u32)>, interleave: u8, full_fdt: bool, objs: Vec<W
         o.max_transfer_count = x.transfers;
         o.start_ms = x.start_us.map(|u| T0_MS + u / 1000);
         o.target = x.target_ms.map(TargetSpec::DurationMs);
-        if let Some((d, k)) = x.carousel {
-            o.carousel = Some(CarouselSpec::DelayMs(d));
+        if let Some((d, k, interval)) = x.carousel {
+            o.carousel = Some(if interval { CarouselSpec::IntervalMs(d) } else { CarouselSpec::DelayMs(d) });
             removals.push((i, k));
         }
         objects.push(o);
@@ -161,13 +161,13 @@ pub fn gen(idx: u64, rng: &mut Rng, _tier: Tier) -> Scn {
     for _ in 0..n {
         let b = if timed { rng.range(2, 5) as u32 } else { 3 };
         let symbols = if timed { rng.range(0, 4 * b as u64 + 2) as u32 } else { rng.range(0, 4) as u32 * 3 };
-        let carousel = if timed && rng.chance(0.25) { Some((*rng.pick(&[0u64, 1, 3, 8]), rng.range(5, 80))) } else { None };
+        let carousel = if timed && rng.chance(0.25) { Some((*rng.pick(&[0u64, 1, 3, 8]), rng.range(5, 80), rng.chance(0.4))) } else { None };
         objs.push(W {
             prio: queues[rng.below(nq as u64) as usize].0,
             symbols,
             b,
             // (a carousel object with several transfers sends them back to back, then waits for its delay)
-            transfers: *rng.pick(&[1u32, 1, 2]),
+            transfers: if carousel.map(|c| c.2).unwrap_or(false) { 1 } else { *rng.pick(&[1u32, 1, 2]) },
             after: if rng.chance(0.35) { Some(rng.range(1, 40)) } else { None },
             start_us: if timed && rng.chance(0.4) { Some(rng.range(0, 12) * 1000 + 500) } else { None },
             carousel,
@@ -271,8 +271,25 @@ pub fn oracle(scn: &SenderScn, ctx: &Ctx, trace: &SenderTrace) {
                 ready.push(Ready { obj: i, prio: o.prio, from, until: removed });
                 first_ready.push(Ready { obj: i, prio: o.prio, from, until: removed });
             }
-            for (c, burst) in mine.chunks(step).enumerate() {
-                let f = if c == 0 { from } else { burst[0].start_seq };
+            let bursts: Vec<&[&Transfer]> = mine.chunks(step).collect();
+            for (c, burst) in bursts.iter().enumerate() {
+                // a later burst is DUE once the carousel delay has elapsed since the previous transfer ended (or the
+                // interval since it started): from the first poll strictly after that instant the object is ready
+                let mut f = if c == 0 { from } else { burst[0].start_seq };
+                if c > 0 {
+                    let prev = bursts[c - 1].last().unwrap();
+                    if let Some(stop) = prev.stop_us {
+                        let due = match o.carousel {
+                            Some(CarouselSpec::DelayMs(d)) => stop + d * 1000,
+                            Some(CarouselSpec::IntervalMs(d)) => stop.max(prev.start_us + d * 1000),
+                            None => stop,
+                        };
+                        let after = prev.stop_seq.unwrap_or(0);
+                        if let Some(p) = trace.polls.iter().find(|p| p.t_us > due + 1 && p.seq_begin > after) {
+                            f = f.min(p.seq_begin);
+                        }
+                    }
+                }
                 let last = burst.last().unwrap();
                 // an incomplete burst at the end of the run (removed, or the run ended): until its last packet
                 let until = last_pkt_seq(last).unwrap_or(last.start_seq).min(removed);
